@@ -25,10 +25,33 @@ func ZZ_C19_Restart() {
 	_, err := a.Update(context.Background(), &UpdateAccountRequest{Username: "u1", Password: p})
 	zzrt.Assert(err == nil, "update-persisted")
 	zzrt.Observe("dir", zzrt.Choice(1))
+	// more account API calls before the restart: a second account, deletions (possibly of
+	// every account: the file must then say so)
+	have := map[string]bool{"u1": true}
+	p2 := zzrt.String(1)
+	for step := 0; step < zzrt.Param("K"); step++ {
+		switch zzrt.Choice(4) {
+		case 0:
+			_, err := a.Update(context.Background(), &UpdateAccountRequest{Username: "u2", Password: p2})
+			zzrt.Assert(err == nil, "second-update-persisted")
+			have["u2"] = true
+		case 1:
+			_, err := a.Delete(context.Background(), &DeleteAccountRequest{Username: "u1"})
+			zzrt.Assert(err == nil, "delete-persisted")
+			have["u1"] = false
+			zzrt.Cover("deleted")
+		case 2:
+			_, err := a.Delete(context.Background(), &DeleteAccountRequest{Username: "u2"})
+			zzrt.Assert(err == nil, "delete-persisted")
+			have["u2"] = false
+		}
+	}
 	// restart
 	b := zzNewAuth(Plain, dir, file)
 	zzrt.Assert(b.Load(nil) == nil, "restart-loads")
 	ok, err := b.validate("u1", p)
-	zzrt.Assert(err == nil && ok, "restarted-broker-loads-the-updated-accounts")
+	zzrt.Assert(err == nil && ok == have["u1"], "restarted-broker-loads-exactly-the-accounts-of-the-api")
+	ok2, err := b.validate("u2", p2)
+	zzrt.Assert(err == nil && ok2 == have["u2"], "restarted-broker-loads-exactly-the-accounts-of-the-api")
 	zzrt.Cover("restarted")
 }
